@@ -317,22 +317,28 @@ def r05d(ctx):
                      "unconditionally (listing sub-edits before refining must give the same pairing as refining first)")
     q = m.need_class("WeightedBipartiteMatcher")
     f = m.method(q, "matching")
-    solve = [c for c in walk_no_nested(f.node) if isinstance(c, ast.Call) and (call_name(c) or "").endswith("min_weight_bipartite_matching")]
+    from ..astx import inline_stmt_calls, block_of
+    flat = inline_stmt_calls(m, q, f.node, keep=("_make_edges_distinct",))      # the solving may sit in a helper the property calls
+    solve = [c for c in walk_no_nested(flat) if isinstance(c, ast.Call) and (call_name(c) or "").endswith("min_weight_bipartite_matching")]
     ctx.floor("R05d", len(solve), 1, "solver calls in WeightedBipartiteMatcher.matching")
     for c in solve:
         st = c
         while not isinstance(st, ast.stmt):
             st = parent(st)
-        blk = parent(st)
-        body = getattr(blk, "body", [])
-        idx = body.index(st) if st in body else 0
-        pre = [x for x in body[:idx] if isinstance(x, ast.Expr) and isinstance(x.value, ast.Call)
-               and self_attr(x.value.func) == "_make_edges_distinct"]
+        # an unconditional `self._make_edges_distinct()` earlier in the same block, or earlier in an enclosing block
+        pre = []
+        cur = st
+        while cur is not None and cur is not flat:
+            lst, idx = block_of(cur) if isinstance(cur, ast.stmt) else (None, None)
+            if lst is not None:
+                pre += [x for x in lst[:idx] if isinstance(x, ast.Expr) and isinstance(x.value, ast.Call)
+                        and self_attr(x.value.func) == "_make_edges_distinct"]
+            cur = parent(cur)
         if pre:
             ctx.proved("R05d", f.file, "WeightedBipartiteMatcher.matching", c, "distinct before solve",
-                       "self._make_edges_distinct() is called unconditionally in the same block before the solver")
+                       "self._make_edges_distinct() is called unconditionally before the solver on the way to it")
         else:
-            anyc = [x for x in walk_no_nested(f.node) if isinstance(x, ast.Call) and self_attr(x.func) == "_make_edges_distinct"]
+            anyc = [x for x in walk_no_nested(flat) if isinstance(x, ast.Call) and self_attr(x.func) == "_make_edges_distinct"]
             how = f"it is only called under a condition (line {anyc[0].lineno})" if anyc else "it is never called"
             ctx.violation("R05d", f.file, "WeightedBipartiteMatcher.matching", c, "distinct before solve",
                           f"the assignment is solved on the edges' current upper bounds but _make_edges_distinct() does not "
